@@ -1405,7 +1405,9 @@ var c08CteStrKinds = []struct{ name, open string }{
 	{"string", `"`}, {"rid", `@"`}, {"remote-ref", `$"`}, {"custom-text", `@7"`}, {"media-text", `@a/b"`},
 }
 
-// every escape form of MODE_STRING_ESCAPE (codegen/cte/CTELexer.g4)
+// every escape form of MODE_STRING_ESCAPE (codegen/cte/CTELexer.g4). cp-surrogate / cp-beyond-unicode: since /repo
+// 9d7e9c8 parseHexCodepoint refuses them (error path; the model CE.Model.Cost.cte_body says so too) - the families
+// stay: the allocation of a decode that ends in an error is held to the same bound.
 var c08CteEscapes = []struct {
 	name, src string
 	model     bool // inside the model's alphabet (verbatim sequences are not)
